@@ -1368,7 +1368,7 @@ def c36(run):
     if run.tier == "quick":
         variants = [("1, 2", 3, True, 0, "list"), ("1, 2, 3", 6, True, 40, "list"), ("1, 2", 3, False, 0, "text"), ("1, 2, 3", 6, False, 30, "text")]
     else:
-        variants = [("1, 2", 4, True, 0, "list"), ("1, 2, 3", 7, True, 400, "list"), ("1, 2", 5, False, 0, "text"), ("1, 2, 3", 7, False, 300, "text")]
+        variants = [("1, 2", 4, True, 0, "list"), ("1, 2, 3", 7, True, 400, "list"), ("1, 2", 4, False, 0, "text"), ("1, 2, 3", 7, False, 300, "text")]
     total = 0
     for vi, (reps, depth, withlist, num, kind) in enumerate(variants):
         exh = num <= 0
@@ -1380,8 +1380,9 @@ def c36(run):
                                  exhaustive=exh, workers=4 if exh else 1)
         run.add_states(r)
         behs = sorted(set(behs))
-        if run.tier == "quick":
-            behs = behs[::max(1, len(behs) // 450)][:450]
+        # an even sample of the behaviours: the C driver runs under AddressSanitizer (about 100 programs per second)
+        cap = 450 if run.tier == "quick" else 6000
+        behs = behs[::max(1, len(behs) // cap)][:cap]
         bp = os.path.join(run.work, f"beh-capi-{vi}.ndjson")
         with open(bp, "w") as f:
             f.write("\n".join(behs) + "\n")
